@@ -57,8 +57,13 @@ pub enum EOp {
     Reset,
     TableNew { size: u64 },
     TableGet { key: u64 },
-    TableAdd { key: u64 },
-    TableReplaceIf { key: u64, pred: u8 },
+    /// val: 0 = a stamp unique to this write, 1 = the value the slot currently holds, 2 = the table's default value
+    TableAdd { key: u64, val: u8 },
+    TableReplaceIf { key: u64, pred: u8, val: u8 },
+    /// library-only walk (C05): follow the k-th move the LIBRARY generates, `picks.len()` plies deep
+    LibWalk { picks: Vec<u8> },
+    /// complete tree of library-generated moves to depth 2 under the task's current board (C05)
+    LibTree,
     /// key = hash of the task's current board (real get_hash value), optionally xor-ed with high bits
     TableAddHere { alias: u64 },
     TableGetHere { alias: u64 },
@@ -268,8 +273,10 @@ fn eop_s(e: &EOp) -> String {
         EOp::Reset => "e=reset".into(),
         EOp::TableNew { size } => format!("e=table_new size={}", size),
         EOp::TableGet { key } => format!("e=table_get key={:016x}", key),
-        EOp::TableAdd { key } => format!("e=table_add key={:016x}", key),
-        EOp::TableReplaceIf { key, pred } => format!("e=table_replace_if key={:016x} pred={}", key, pred),
+        EOp::TableAdd { key, val } => format!("e=table_add key={:016x} val={}", key, val),
+        EOp::TableReplaceIf { key, pred, val } => format!("e=table_replace_if key={:016x} pred={} val={}", key, pred, val),
+        EOp::LibWalk { picks } => format!("e=lib_walk picks={}", picks.iter().map(|b| format!("{:02x}", b)).collect::<String>()),
+        EOp::LibTree => "e=lib_tree".into(),
         EOp::TableAddHere { alias } => format!("e=table_add_here alias={:016x}", alias),
         EOp::TableGetHere { alias } => format!("e=table_get_here alias={:016x}", alias),
     }
@@ -427,8 +434,20 @@ impl Step {
                     "reset" => EOp::Reset,
                     "table_new" => EOp::TableNew { size: gu("size")? },
                     "table_get" => EOp::TableGet { key: gx("key")? },
-                    "table_add" => EOp::TableAdd { key: gx("key")? },
-                    "table_replace_if" => EOp::TableReplaceIf { key: gx("key")?, pred: gu("pred")? as u8 },
+                    "table_add" => EOp::TableAdd { key: gx("key")?, val: gu("val").unwrap_or(0) as u8 },
+                    "table_replace_if" => EOp::TableReplaceIf { key: gx("key")?, pred: gu("pred")? as u8, val: gu("val").unwrap_or(0) as u8 },
+                    "lib_walk" => {
+                        let h = g("picks")?;
+                        let mut v = vec![];
+                        let hb = h.as_bytes();
+                        let mut i = 0;
+                        while i + 1 < hb.len() {
+                            v.push(u8::from_str_radix(std::str::from_utf8(&hb[i..i + 2]).ok()?, 16).ok()?);
+                            i += 2;
+                        }
+                        EOp::LibWalk { picks: v }
+                    }
+                    "lib_tree" => EOp::LibTree,
                     "table_add_here" => EOp::TableAddHere { alias: gx("alias")? },
                     "table_get_here" => EOp::TableGetHere { alias: gx("alias")? },
                     _ => return None,
